@@ -9,11 +9,12 @@ C03Pyx.lean, C03Round.lean.
 Correspondence: every case is run through `hydrodiy.stat.metrics.crps` (extension rebuilt from the working
 tree) and through the model driver; the 5 decomposition numbers and the (m+1)x7 table (except the 0/0 cells of
 empty inner bins, which the property does not constrain) are compared with
-the Float instance (<= 4 ulp; `resolution` condition-scaled because it is a difference), error kinds are
-compared by name, and on small cases the exact Rat instance is compared with the code to 1e-11 relative; on the
+the Float instance (<= 4 ulp; `resolution` condition-scaled because it is a difference), rejections are
+compared as rejected-vs-accepted (error kinds by name are tallied as error_kind_differences, 0 on the unchanged tree), and on small cases the exact Rat instance is compared with the code to 1e-11 relative; on the
 same small cases the Lean definition `definitionCrps` (exact, Rat) must equal the oracle's exact definition as a
-rational. Extension level: after every operation of a history on one pair of output arrays the content of both
-arrays and the outcome (0 / EDOM / AssertionError) are compared with `runOps` (<= 4 ulp).
+rational. Extension level: histories on one pair of output arrays are run on the code and on `runOps`; the steps
+that have the call shape of `metrics.crps` (zeroed outputs, flags 0, matching shapes, n >= 1) are compared (<= 4
+ulp); all other steps (calls no public wrapper can make) are tallied in the evidence, never a disagreement.
 
 Oracle (on the real code only, exact rationals, independent of the model): CRPS = mean of
 E|X-y| - E|X-X'|/2 over the unsorted members; crps = reliability + potential; resolution = uncertainty -
@@ -29,12 +30,14 @@ single member, random normal with wide dynamic range (1e-290 .. 1e304), n up to 
 2^k over the whole exponent range (largest value just below 2^1021 with up to 70 forecasts, 2^+-512 where squares
 over/underflow, granule 2^-960), exact power-of-two scaling to both ends of the range, NaN observations and all-NaN
 rows; malformed stream: length mismatch, zero members, nothing valid; shape stream: observations / ensembles
-given as scalars, vectors, [n,1], [1,n], [n,1,1], genuinely 2-D, empty, 3-D ensembles (model op crpsnd, error kinds by name; 3-D: "rejected" only);
+given as scalars, vectors, [n,1], [1,n], [n,1,1], genuinely 2-D, empty, 3-D ensembles (model op crpsnd; rejected vs accepted, error kinds tallied);
 history stream: 2-4 calls on the same argument objects with in-place edits of the arguments or of the returned
 objects, equal-size re-assignments, NaN set/cleared, other arguments of the same or of another size (more / fewer
 forecasts and members) in between, rejected calls in between, pickle/deepcopy round trips; extension-level
 stream: 2-7 operations on one pair of output arrays (fill, call, call again = accumulate, explicit weights,
-is_sorted=1 on sorted / unsorted rows, wrong shapes, zero forecasts, flag values other than 0/1; model op pyxrun);
+is_sorted=1 on sorted / unsorted rows, wrong shapes, zero forecasts, flag values other than 0/1; model op pyxrun):
+only the call shape of metrics.crps (zeroed outputs, both flags 0, matching shapes, n >= 1) is compared, wherever
+it stands in the history; all other steps are tallied as outside_property_differences (0 on the unchanged tree);
 one long series (n > 46340). Non-trivial: accepted call with CRPS > 0.
 """
 import errno
@@ -147,20 +150,29 @@ def parse_model_q(rep):
     return ("ok", [q(x) for x in tk[1:6]], [q(x) for x in C.parse_list(tk[6])])
 
 
-def same_float(impl, model):
-    """Float model vs code: <= 4 ulp everywhere; resolution (= unc - pot) scaled by its operands"""
+KIND_DIFFS = []
+
+
+def same_float(impl, model, n=0):
+    """Float model vs code: <= 4 ulp everywhere, except the uncertainty - a sum over the n(n-1)/2 pairs of
+    observations whose order the property does not fix (DESIGN 9.1d): the oracle's own budget for that sum,
+    8 (n + 8) 2^-52 relative; resolution (= unc - pot) scaled by its operands, with the same allowance"""
     if impl[0] != model[0]:
         return False
     if impl[0] == "err":
-        return impl[1] == model[1]
+        # rejected vs accepted only (DESIGN 9.1d): the property names no error; class / message / which guard speaks
+        # first are tallied in the evidence (error_kind_differences), not compared
+        if impl[1] != model[1]:
+            KIND_DIFFS.append({"code": impl[1][:120], "model": model[1][:60]})
+        return True
     if len(impl[2]) != len(model[2]):
         return False
     for k, (a, b) in enumerate(zip(impl[1], model[1])):
         if k == 2:
             scale = max(abs(impl[1][3]), abs(impl[1][4]), abs(model[1][4]))
-            if not (C.close(a, b, rel=0.0, abs_=8 * EPS * scale, ulps=4)):
+            if not (C.close(a, b, rel=0.0, abs_=(8 + (8 * (n + 8) if n else 0)) * EPS * scale, ulps=4)):
                 return False
-        elif not C.close(a, b, rel=0.0, ulps=4):
+        elif not C.close(a, b, rel=(8 * (n + 8) * EPS if (k == 3 and n) else 0.0), ulps=4):
             return False
     # cells rank / reliability / crps_potential of an EMPTY inner bin (g = 0: the model has 0/0 = NaN there) are
     # not constrained by the property (the row never enters a sum): not compared
@@ -173,7 +185,7 @@ def same_exact(impl, modelq, n, m):
     if impl[0] != modelq[0]:
         return False
     if impl[0] == "err":
-        return impl[1] == modelq[1]
+        return True              # rejected vs accepted only (kinds tallied by same_float)
     if len(impl[2]) != len(modelq[2]):
         return False
     scale = max([abs(x) for x in modelq[2][3::7] if x is not None] + [abs(modelq[1][0]), abs(modelq[1][3])])
@@ -668,7 +680,7 @@ def run_cases(ctx, cases, tag, precomputed=None):
                   branch=(fam if ok else fam + "->" + res[1].split(":")[0]),
                   sample={"obs": case["obs"][:4], "ens": [r[:4] for r in case["ens"][:3]], "reply": canon(res)[:120]})
         if kept_all_finite(case):
-            if same_float(res, model):
+            if same_float(res, model, n=len(case["obs"])):
                 ctx.compare("C03/float", slim, "agree", "agree")
             else:
                 ctx.compare("C03/float", slim, canon(res)[:2000], rep[:2000])
@@ -700,7 +712,7 @@ def run_cases(ctx, cases, tag, precomputed=None):
 
 def shape_stream(ctx):
     """shape handling of __check_ensemble_data: obs/ens given with many shapes (scalars, vectors, [n,1], [1,n],
-    [n,1,1], genuinely 2-D observations, 1-D ensembles, empty axes); model op `crpsnd`; error kinds by name.
+    [n,1,1], genuinely 2-D observations, 1-D ensembles, empty axes); model op `crpsnd`; rejected vs accepted (error kinds tallied).
     Oracle: the documented layouts ([n] or [n,1] observations with an [n,p] ensemble) give the result of the
     plain [n] call."""
     import numpy as np
@@ -743,7 +755,7 @@ def shape_stream(ctx):
             # IndexError depending on how the shapes broadcast - only "rejected" is compared
             ok = res[0] == "err" and model[0] == "err"
         else:
-            ok = same_float(res, model)
+            ok = same_float(res, model, n=len(case["obs"]))
         if ok:
             ctx.compare("C03/shape", case, "agree", "agree")
         else:
@@ -853,17 +865,22 @@ def history_stream(ctx):
 
 def pyx_stream(ctx):
     """the extension-level entry point `c_hydrodiy_stat.crps(use_weights, is_sorted, obs, sim, weights, table,
-    decompos)` driven directly: histories of 2-7 operations on ONE pair of output arrays (fill with a value |
-    plain call | call on the same arrays again, which accumulates | explicit weights | is_sorted=1 on sorted
-    rows | is_sorted=1 on unsorted rows -> EDOM | wrong shapes -> AssertionError | zero forecasts | flag values
-    other than 0/1). After every operation the content of both arrays and the outcome are compared with the
-    model (`runOps`, <= 4 ulp); a failing operation must leave both arrays bit-for-bit as they were; explicit
-    uniform weights and is_sorted=1 on sorted rows must give bit-for-bit the plain answer (theorems
-    failing_op_leaves_outputs, explicit_uniform_weights_same, sorted_flag_same)."""
+    decompos)` driven directly: histories of 2-7 operations on ONE pair of output arrays, run on the real code and
+    on the model (`runOps`).
+    COMPARED (disagreement when different): only the call `metrics.crps` itself makes - both output arrays zeroed
+    just before, use_weights=0, is_sorted=0, matching shapes, n >= 1, a zero weight vector of length n - wherever
+    it stands in the history (after accumulating calls, failed calls, fills with other values): outcome 0 and the
+    content of both arrays within the rounding rule of the value stream (<= 4 ulp).
+    TALLIED ONLY (`outside_property_differences` in the evidence, 0 on the unchanged tree, never a disagreement or a
+    finding - DESIGN 9.1d: calls no public wrapper can make): stale / non-zeroed outputs (accumulation), explicit
+    weights, is_sorted=1 on sorted / unsorted rows, flag values other than 0/1, wrong shapes, zero forecasts, what a
+    failing call leaves in the arrays, which layer rejects and with which code, and the bit-for-bit relations
+    explicit-uniform-weights = plain and is_sorted=1-on-sorted-rows = plain."""
     import numpy as np
     import c_hydrodiy_stat as cs
     rng = ctx.rng
     reqs, runs = [], []
+    outside, outside_steps = [], 0
 
     def state(dec, tab):
         return ("ok", [float(x) for x in dec], [float(x) for x in tab.ravel()])
@@ -873,17 +890,24 @@ def pyx_stream(ctx):
             ierr = cs.crps(uw, srt, obs, sim, w, tab, dec)
         except AssertionError:
             return "assertion"
+        except Exception as ex:  # noqa  (another layer rejecting: tallied, see above)
+            return "raised:" + type(ex).__name__
         return "ok" if ierr == 0 else ("edom" if ierr == errno.EDOM else f"ierr{ierr}")
 
     for _ in range(ctx.scale(200, 2000)):
         m = rng.randint(1, 5)
         tab, dec = np.zeros((m + 1, 7)), np.zeros(5)
         vs = grid_values(rng) + [rng.randint(-12, 12) / 4 for _ in range(2)]
-        toks, outs, kinds = [], [], []
+        toks, outs, kinds, strict = [], [], [], []
+        zeroed = True          # both arrays hold zeros on both sides (start of the history / just after fill 0)
+        last_args = None
+        todo = []
         for step in range(rng.randint(2, 7)):
-            kind = "fill0" if step == 0 and rng.random() < 0.8 else rng.choice(
-                ["fill0", "fill", "call", "call", "again", "weights", "uniform_weights", "sorted_ok", "sorted_bad",
-                 "assert_len", "assert_cols", "n0", "flags"])
+            kind = "fill0" if step == 0 and rng.random() < 0.5 else rng.choice(
+                ["public", "public", "public", "fill", "call", "again", "weights", "uniform_weights", "sorted_ok",
+                 "sorted_bad", "assert_len", "assert_cols", "n0", "flags"])
+            todo += ["fill0", "call"] if kind == "public" else [kind]
+        for kind in todo:
             before = (dec.copy(), tab.copy())
             if kind in ("fill0", "fill"):
                 v = 0.0 if kind == "fill0" else rng.choice([1.0, -2.5, 0.125, 7.0])
@@ -892,14 +916,16 @@ def pyx_stream(ctx):
                 toks.append(f"fill {C.f2h(v)}")
                 outs.append(("ok", state(dec, tab)))
                 kinds.append(kind)
+                strict.append(False)
+                zeroed = v == 0.0
                 continue
             n = 0 if kind == "n0" else rng.choice([1, 2, 3, rng.randint(1, 9)])
             cols = m if kind != "assert_cols" else rng.choice([m + 1, max(1, m - 1) if m > 1 else m + 2])
             obs = np.array([rng.choice(vs) for _ in range(n)], dtype=np.float64)
             sim = np.array([[rng.choice(vs) for _ in range(cols)] for _ in range(n)], dtype=np.float64).reshape(n, cols)
             uw, srt = 0, 0
-            w = np.zeros(rng.choice([n, n, 0, n + 2]))
-            if kind == "again" and kinds and any(k == "call" for k in kinds):
+            w = np.zeros(n if kind == "call" else rng.choice([n, n, 0, n + 2]))
+            if kind == "again" and last_args is not None:
                 obs, sim, w = last_args
             if kind == "assert_len":
                 obs = np.array([rng.choice(vs) for _ in range(n + rng.choice([1, 2]))], dtype=np.float64)
@@ -924,44 +950,54 @@ def pyx_stream(ctx):
                 uw, srt = rng.choice([2, -1, 0]), 0
             if kind == "call":
                 last_args = (obs, sim, w)
+            # the call shape of metrics.crps: compared; everything else: tallied
+            public = (zeroed and uw == 0 and srt == 0 and len(obs) == sim.shape[0] and sim.shape[1] == m
+                      and len(obs) >= 1 and len(w) == len(obs) and not w.any())
             out = do_call(uw, srt, obs, sim, w, tab, dec)
+            zeroed = False
             toks.append(f"call {uw} {srt} {sim.shape[0]} {sim.shape[1]} {C.flist(obs)} {C.flist(sim.ravel())} {C.flist(w)}")
             outs.append((out, state(dec, tab)))
             kinds.append(kind)
+            strict.append(public)
             case = {"family": "pyx/" + kind, "m": m, "history": kinds[:], "use_weights": uw, "is_sorted": srt,
                     "obs": [float(x) for x in obs], "sim": [[float(x) for x in r] for r in sim], "weights": [float(x) for x in w]}
             if out != "ok" and not (np.array_equal(before[0], dec, equal_nan=True) and np.array_equal(before[1], tab, equal_nan=True)):
-                ctx.disagree("a failing extension-level call changed the output arrays", case)
+                outside.append({"what": "a failing extension-level call changed the output arrays", **case, "outcome": out})
             # bit-for-bit relations on the real code (run on scratch arrays holding what the arrays held before)
             if out == "ok" and kind in ("uniform_weights", "sorted_ok"):
                 d2, t2 = before[0].copy(), before[1].copy()
                 o2 = do_call(0, srt if kind == "uniform_weights" else 0, obs, sim, np.zeros(len(obs)), t2, d2)
                 if o2 != "ok" or C.flist(d2) != C.flist(dec) or C.flist(t2.ravel()) != C.flist(tab.ravel()):
-                    ctx.disagree("explicit uniform weights / is_sorted=1 on sorted rows differ from the plain call", case)
-            ctx.count(("pyx", m, kinds[-1], case["obs"], case["sim"], case["weights"], uw, srt), out == "ok" and len(obs) > 0,
-                      branch="pyx/" + kind + ("" if out == "ok" else "->" + out))
+                    outside.append({"what": "explicit uniform weights / is_sorted=1 on sorted rows differ from the plain call", **case})
+            ctx.count(("pyx", m, kinds[-1], case["obs"], case["sim"], case["weights"], uw, srt, public), out == "ok" and len(obs) > 0,
+                      branch="pyx/" + ("public_call" if public else kind) + ("" if out == "ok" else "->" + out.split(":")[0]))
         reqs.append(f"pyxrun {m} | " + " | ".join(toks))
-        runs.append((m, kinds, outs))
-    for req, (m, kinds, outs), rep in zip(reqs, runs, ctx.lean.ask(reqs)):
+        runs.append((m, kinds, outs, strict))
+    for req, (m, kinds, outs, strict), rep in zip(reqs, runs, ctx.lean.ask(reqs)):
         parts = rep.split(" | ")
         case = {"family": "pyx/history", "m": m, "history": kinds, "request": req[:3000]}
         if len(parts) != len(outs) + 1 or not parts[-1].startswith("final "):
             ctx.compare("C03/pyx", case, "history of %d operations" % len(outs), rep[:300])
             continue
         good = True
-        for (out, st), part in zip(outs, parts[:-1]):
+        for k, ((out, st), part, pub) in enumerate(zip(outs, parts[:-1], strict)):
             tk = part.split()
             mout = tk[1] if tk[0] == "err" else "ok"
             mst = parse_model(" ".join(tk[2:] if tk[0] == "err" else tk))
-            if mout != out or not same_float(st, mst):
-                good = False
-                ctx.compare("C03/pyx", {**case, "step": len(kinds)}, out + " " + canon(st)[:1200], part[:1200])
-                break
-        if good and not same_float(outs[-1][1], parse_model(parts[-1][len("final "):])):
-            good = False
-            ctx.compare("C03/pyx", case, canon(outs[-1][1])[:1200], parts[-1][:1200])
+            same = mout == out and same_float(st, mst, n=9)
+            if pub:
+                if not same:
+                    good = False
+                    ctx.compare("C03/pyx", {**case, "step": k, "kind": kinds[k]}, out + " " + canon(st)[:1200], part[:1200])
+                    break
+            elif kinds[k] not in ("fill0", "fill"):
+                outside_steps += 1
+                if not same:
+                    outside.append({"what": "outcome / content of the output arrays after a call no public wrapper makes differs from the model",
+                                    "m": m, "history": kinds[:k + 1], "step": k, "code": (out + " " + canon(st))[:300], "model": part[:300]})
         if good:
             ctx.compare("C03/pyx", case, "agree", "agree")
+    ctx.extra["outside_property_differences"] = {"count": len(outside), "steps_tallied": outside_steps, "samples": outside[:5]}
 
 
 def large_n(ctx):
@@ -997,6 +1033,7 @@ def large_n(ctx):
 
 
 def body(ctx):
+    del KIND_DIFFS[:]
     # replay of one recorded case
     if getattr(ctx, "replay", None) and isinstance(ctx.replay.get("case"), dict) and "obs" in ctx.replay["case"]:
         c = ctx.replay["case"]
@@ -1018,6 +1055,7 @@ def body(ctx):
     history_stream(ctx)
     pyx_stream(ctx)
     large_n(ctx)
+    ctx.extra["error_kind_differences"] = {"count": len(KIND_DIFFS), "samples": KIND_DIFFS[:5]}
     ctx.extra["rule"] = __doc__.split("Cases:")[1].strip()
     ctx.assumptions += [
         "glibc qsort returns a sorted permutation (model parameter `sort`, hypothesis SortOK; the driver uses a stable merge sort)",
